@@ -641,4 +641,75 @@ theorem createLinks_ok_balanced (ts : List Tok) (L : List (Option Nat)) (h : cre
       cases hd with
       | base hb => simpa using hb
 
+/-! ### link writers after `createLinks` -/
+
+/-- symmetry of a link vector given as a function -/
+def SymF (f : Nat → Option Nat) : Prop := (∀ a b, f a = some b → f b = some a) ∧ (∀ a, f a ≠ some a)
+
+theorem symF_empty : SymF (fun _ => none) := by
+  constructor
+  · intro a b h; cases h
+  · intro a h; cases h
+
+theorem mutualLinks_symF (f : Nat → Option Nat) (a b : Nat) (h : SymF f) (hab : a ≠ b) (ha : f a = none) (hb : f b = none) :
+    SymF (mutualLinks f a b) := by
+  have key : ∀ x y, f x = some y → x ≠ a ∧ x ≠ b ∧ y ≠ a ∧ y ≠ b := by
+    intro x y hxy
+    have hyx := h.1 x y hxy
+    refine ⟨?_, ?_, ?_, ?_⟩
+    · intro e; rw [e, ha] at hxy; cases hxy
+    · intro e; rw [e, hb] at hxy; cases hxy
+    · intro e; rw [e, ha] at hyx; cases hyx
+    · intro e; rw [e, hb] at hyx; cases hyx
+  constructor
+  · intro x y hxy
+    simp only [mutualLinks, updLink_apply] at hxy ⊢
+    by_cases hxb : x = b
+    · simp only [hxb, if_true] at hxy
+      have : y = a := (Option.some.inj hxy).symm
+      subst this; subst hxb
+      simp [hab]
+    · by_cases hxa : x = a
+      · subst hxa
+        simp only [hxb, if_false, if_true] at hxy
+        have : y = b := (Option.some.inj hxy).symm
+        subst this
+        simp
+      · simp only [hxb, hxa, if_false] at hxy
+        have := key x y hxy
+        simp only [this.2.2.1, this.2.2.2, if_false]
+        exact h.1 x y hxy
+  · intro x hx
+    simp only [mutualLinks, updLink_apply] at hx
+    by_cases hxb : x = b
+    · simp only [hxb, if_true] at hx; exact hab (Option.some.inj hx)
+    · by_cases hxa : x = a
+      · subst hxa
+        simp only [hxb, if_false, if_true] at hx; exact hab (Option.some.inj hx).symm
+      · simp only [hxb, hxa, if_false] at hx; exact h.2 x hx
+
+theorem clearPair_symF (f : Nat → Option Nat) (a b : Nat) (h : SymF f) (hl : f a = some b) :
+    SymF (clearLink (clearLink f a) b) := by
+  have hba := h.1 a b hl
+  constructor
+  · intro x y hxy
+    simp only [clearLink, updLink_apply] at hxy ⊢
+    by_cases hxb : x = b
+    · simp [hxb] at hxy
+    · by_cases hxa : x = a
+      · simp [hxa] at hxy
+      · simp only [hxb, hxa, if_false] at hxy
+        have hyx := h.1 x y hxy
+        have hyb : y ≠ b := by intro e; rw [e, hba] at hyx; exact hxa (Option.some.inj hyx).symm
+        have hya : y ≠ a := by intro e; rw [e, hl] at hyx; exact hxb (Option.some.inj hyx).symm
+        simp only [hyb, hya, if_false]
+        exact hyx
+  · intro x hx
+    simp only [clearLink, updLink_apply] at hx
+    by_cases hxb : x = b
+    · simp [hxb] at hx
+    · by_cases hxa : x = a
+      · simp [hxa] at hx
+      · simp only [hxb, hxa, if_false] at hx; exact h.2 x hx
+
 end Cppcheck.Links
